@@ -3,7 +3,7 @@
 From Coq Require Import List Bool Arith ZArith Lia.
 Import ListNotations.
 Require Import Nib.C06.Model.
-Open Scope Z_scope.
+Local Open Scope Z_scope.
 
 (** what an observer reads for one mapping: the registry entry, ERC20 totalSupply, ERC20
     balanceOf(EVM module), bank supply of the denom, bank balance of the EVM module for the denom *)
